@@ -34,6 +34,8 @@ def instances(tier):
     for meth in (["Euler", "RK4Solver"] if quick else ["Euler", "RK4", "RK4Solver", "EulerSolver"]):
         out.append(dict(id="plain-%s-vec2" % meth, method=meth, shape=[2], mode="plain", N=N, budget=b))
     out.append(dict(id="plain-Euler-mat22", method="Euler", shape=[2, 2], mode="plain", N=N, budget=b))
+    for na in (3, 4):
+        out.append(dict(id="plain-Euler-vec2-args%d" % na, method="Euler", shape=[2], mode="plain", N=1, nargs=na, budget=b))
     out.append(dict(id="maxstep-Euler-vec2", method="Euler", shape=[2], mode="maxstep", N=N, budget=b))
     for L in ((1, 2) if quick else (1, 2, 3)):
         out.append(dict(id="t_eval%d-Euler-vec2" % L, method="Euler", shape=[2], mode="t_eval", L=L, N=2, budget=b))
@@ -70,9 +72,16 @@ def scenario(c, inst):
     a_arg, b_arg = c.real("arg_a"), c.real("arg_b")
     base = FreshRhs(c, shape, name="f", mode="uf")
     seen_args = []
+    # the rhs has four parameters after (t, y), two of them defaulted; args supplies the first nargs of them (2: only the
+    # mandatory ones, 3: one default overridden, 4: all)
+    nargs = inst.get("nargs", 2)
+    K_DEF, M_DEF = object(), object()
+    extra = [c.real("arg_k"), c.real("arg_m")][:nargs - 2]
+    want_k = extra[0] if nargs >= 3 else K_DEF
+    want_m = extra[1] if nargs >= 4 else M_DEF
 
-    def fun(t, y, a, b):
-        seen_args.append((a, b))
+    def fun(t, y, a, b, k=K_DEF, m=M_DEF):
+        seen_args.append((a, b, k, m))
         return base(t, y)
     base2 = FreshRhs(c, shape, name="f", mode="uf")
 
@@ -100,7 +109,7 @@ def scenario(c, inst):
             for j in range(i + 1, len(pts)):
                 g = absval(c, pts[i] - pts[j])
                 c.assume(c.any([c.eq(g, 0), c.le(1.0 / 64, g)]) if c.symbolic else True)     # no hops at the rounding-tolerance scale
-    st, res = run(de.solve_ivp, fun, (t0, tf), y0, method=method, t_eval=t_eval, args=(a_arg, b_arg), dense_output=False, **opts)
+    st, res = run(de.solve_ivp, fun, (t0, tf), y0, method=method, t_eval=t_eval, args=tuple([a_arg, b_arg] + extra), dense_output=False, **opts)
     if st != "ok":
         cause = getattr(res, "__cause__", None)
         if isinstance(cause, StepCap):
@@ -112,8 +121,13 @@ def scenario(c, inst):
     n_t = len(res.t)
     c.note("n_t", n_t)
     c.check("c18.shapes", tuple(np.shape(res.t)) == (n_t,) and tuple(np.shape(res.y)) == shape + (n_t,), info=dict(t=np.shape(res.t), y=np.shape(res.y)))
-    c.check("c18.args_bound_positionally_at_every_evaluation", len(seen_args) > 0 and all(u is a_arg and v is b_arg for u, v in seen_args) if c.symbolic else
-            all(u == a_arg and v == b_arg for u, v in seen_args))
+    def _same(u, v):
+        if v is K_DEF or v is M_DEF or u is K_DEF or u is M_DEF:
+            return u is v
+        return (u is v) if c.symbolic else (u == v)
+    c.check("c18.args_bound_positionally_at_every_evaluation", len(seen_args) > 0 and
+            all(_same(u, a_arg) and _same(v, b_arg) and _same(k, want_k) and _same(m, want_m) for u, v, k, m in seen_args),
+            info=dict(nargs=nargs, first=repr(seen_args[0])[:120] if seen_args else None))
     c.check("c18.counters_and_status_are_the_systems", res.nfev == osys.nfev and res.njev == osys.njev and res.success == osys.success and
             res.status == osys.integration_status and res.sol is osys.sol)
     c.check("c18.nfev_counts_calls", osys.nfev == base.completed, info=dict(nfev=osys.nfev, counted=base.completed))
